@@ -63,6 +63,12 @@ def run(tier="quick"):
             chk.ob("P1", f.name, "progress:loop@%s" % ("outer" if o.node.get("l") == min(x.node.get("l") for x in cp.obls if x.kind == "progress") else "inner%d" % nloops),
                    o.ok, loc=f.loc(o.node), detail="%s: %s" % (f.name, o.detail), proof="a cursor strictly advances on every path through the body")
         if o.kind == "unterminated" and not o.ok:
+            m_ = re.match(r"string function reads (\w+)", o.detail or "")
+            scratch_ = {v.get("n") for v in f.vardecls.values() if v.get("alen")}
+            if o.undecided and not (m_ and m_.group(1) in scratch_):
+                # an input string whose terminator the (partial) exploration lost track of: not a scratch buffer, not decided
+                chk.note("B1: terminator of %s not tracked at %s; not decided" % (m_.group(1) if m_ else "a string", f.loc(o.node)))
+                continue
             chk.ob("B1", f.name, "read-before-write:" + X.render(o.node)[:30], False, loc=f.loc(o.node),
                    detail="%s reads a scratch buffer as a string on a path where nothing terminated it: the result depends on stack contents" % f.name)
     # U2 every run is compared on its own: a scratch buffer that the main loop fills through a cursor is terminated afresh in the
@@ -123,7 +129,7 @@ def run(tier="quick"):
                     cd = [y["d"] for y in walk(x["ch"][0]) if y.get("k") == "ref" and y.get("d") in cursors]
                     if not any(y.get("k") == "ref" and y.get("d") in cd and y["i"] in writes for y in walk(lp.get("body") or {})):
                         uses.append(x)
-            filled = any(y["i"] in writes and y.get("k") == "ref" and y.get("d") in cursors for y in walk(lp.get("body") or {}))
+            filled = any(y["i"] in writes and y.get("k") == "ref" and (y.get("d") in cursors or y.get("d") == A) for y in walk(lp.get("body") or {}))
             if not filled:
                 # the run is copied by a unit-local helper that is handed the buffer: the helper terminates what it wrote on
                 # every return (same obligation, stated inside the helper)
